@@ -57,6 +57,45 @@ theorem cw_lt_of_not_between_closed (n s key : Nat) (hn : n < M) (hs : s < M) (h
   unfold cw
   by_cases e1 : s = key <;> by_cases e2 : n = key <;> simp [e1, e2] <;> omega
 
+/-! ### `Net.get` / `Net.upd` -/
+
+theorem get_upd (net : Net) (n m : Nat) (f : Node → Node) :
+    (net.upd n f).get m = if m = n then (net.get n).map f else net.get m := by
+  unfold Net.upd Net.get
+  induction net with
+  | nil => simp
+  | cons p ps ih =>
+    obtain ⟨k, nd⟩ := p
+    by_cases hk : k = n
+    · subst hk
+      by_cases hm : m = k
+      · subst hm; simp [List.find?]
+      · have : (k == m) = false := by simpa using fun h => hm h.symm
+        simp only [List.map_cons, beq_self_eq_true, if_true, List.find?, this]
+        simpa [hm] using ih
+    · have hkn : (k == n) = false := by simpa using hk
+      simp only [List.map_cons, hkn, Bool.false_eq_true, if_false, List.find?]
+      by_cases hm : (k == m) = true
+      · have : m = k := by simpa using (eq_comm.mp (by simpa using hm))
+        subst this
+        simp [hk]
+      · have hm' : (k == m) = false := by simpa using hm
+        simp only [hm']
+        exact ih
+
+theorem get_upd_same (net : Net) (n : Nat) (f : Node → Node) : (net.upd n f).get n = (net.get n).map f := by
+  rw [get_upd]; simp
+
+theorem get_upd_other (net : Net) (n m : Nat) (f : Node → Node) (h : m ≠ n) : (net.upd n f).get m = net.get m := by
+  rw [get_upd]; simp [h]
+
+/-- lifecycle state of a node (none = unknown node) -/
+def stateOf (net : Net) (n : Nat) : Option St := (net.get n).map (·.state)
+
+theorem stateOf_upd (net : Net) (n m : Nat) (f : Node → Node) :
+    stateOf (net.upd n f) m = if m = n then (net.get n).map (fun nd => (f nd).state) else stateOf net m := by
+  unfold stateOf; rw [get_upd]; split <;> simp [Option.map_map, Function.comp_def]
+
 /-! ### case analysis of `findSucc` without unfolding matches -/
 
 theorem findSucc_zero (net : Net) (n key : Nat) : findSucc net 0 n key = .err .fuel := rfl
